@@ -114,3 +114,21 @@ Definition diagnose (k : case) : list bool :=
    lip_ok (c_lip k) (lipschitz e);
    beq (c_lin k) (is_linear (c_vs k) e);
    kind_eqb (c_kind k) (kind_of e)].
+
+(* ---- SeparableSum(f1, f2) on ProductSpace(S1, S2) ---- *)
+Record case2 := mkCase2 {
+  k_w1 : list Q; k_w2 : list Q; k_vs : variants; k_e1 : fx k_w1; k_e2 : fx k_w2;
+  k_x1 : list Q; k_x2 : list Q; k_d1 : list Q; k_d2 : list Q;
+  k_val : Q; k_g1 : list Q; k_g2 : list Q; k_deriv : Q; k_lip : ilip; k_lin : bool }.
+
+Definition check2 (k : case2) : bool :=
+  let P := sprod Qsqrt (WS (k_w1 k)) (WS (k_w2 k)) in
+  let e : fexpr P := f_sepsum Qsqrt (k_e1 k) (k_e2 k) in
+  let x : car P := (k_x1 k, k_x2 k) in
+  let d : car P := (k_d1 k, k_d2 k) in
+  let g := gradient e x in
+  Qclose atol rtol (k_val k) (value e x)
+  && Qsclose atol rtol (k_g1 k) (fst g) && Qsclose atol rtol (k_g2 k) (snd g)
+  && Qclose atol rtol (k_deriv k) (derivative e x d)
+  && lip_ok (k_lip k) (lipschitz e)
+  && beq (k_lin k) (is_linear (k_vs k) e).
